@@ -45,7 +45,7 @@ func RunProcessor(c *sim.Ctx) {
 		return int(c.Knob(name, func() int64 { return int64(c.Int(name, lo, hi)) }))
 	}
 	n := knob("events", 2, 12)
-	c.ProbeDecl("enqueue_blocked_on_semaphore", "enqueue_err_busy", "stop_with_batches_in_flight", "far_future_event_dropped", "ordered_batch_with_reordering_checker", "event_spilled_by_buffer", "all_batches_done_and_balanced", "duplicate_event_in_flight", "run_with_lamport_claim_2^31_ahead", "stop_right_after_start_and_enqueue")
+	c.ProbeDecl("enqueue_blocked_on_semaphore", "enqueue_err_busy", "stop_with_batches_in_flight", "far_future_event_dropped", "ordered_batch_with_reordering_checker", "event_spilled_by_buffer", "all_batches_done_and_balanced", "duplicate_event_in_flight", "run_with_lamport_claim_2^31_ahead", "stop_right_after_start_and_enqueue", "child_connected_by_another_route_during_process")
 	type evd struct {
 		parents  []int
 		lamport  int
@@ -158,6 +158,7 @@ func RunProcessor(c *sim.Ctx) {
 	// (callbacks that the ordering buffer invokes under its mutex must not sleep: a goroutine blocked on a
 	// sync.Mutex is not durably blocked and the bubble's clock could not advance)
 	syncChecker := knob("checker_answers_synchronously", 0, 3) == 0
+	outsideRoute := knob("events_also_arrive_by_another_route", 0, 3) == 0
 	burst := knob("start_enqueue_stop_without_yielding", 0, 7) == 0 // batch 0 is enqueued and the processor stopped right after Start, on one goroutine
 	stopMode := knob("stop_mode", 0, 1)                             // 0 after quiescence, 1 at a drawn instant
 	stopAt := time.Duration(knob("stop_at_ms", 0, 1500)) * time.Millisecond
@@ -237,6 +238,29 @@ func RunProcessor(c *sim.Ctx) {
 						return errors.New("injected process failure")
 					}
 					connected[pc.ev] = true
+					if outsideRoute {
+						// the application's store also learns events from elsewhere: while this event is being processed, a child
+						// whose parents are all connected now arrives by that other route (the buffer may still hold its copy)
+						for ci, ce := range evs {
+							if connected[ci] || len(ce.parents) == 0 || ce.lamport >= 1<<31 || sim.Mix(uint64(ci), uint64(pc.ev), uint64(len(procOrder)))%3 != 0 {
+								// (an event with an absurd Lamport claim is not something an application accepts from any route)
+								continue
+							}
+							isChild, all := false, true
+							for _, p := range ce.parents {
+								if p == pc.ev {
+									isChild = true
+								}
+								if !connected[p] {
+									all = false
+								}
+							}
+							if isChild && all {
+								connected[ci] = true
+								probes.inc("child_connected_by_another_route_during_process")
+							}
+						}
+					}
 					return nil
 				},
 				Released: func(e dag.Event, peer string, err error) {
@@ -262,7 +286,7 @@ func RunProcessor(c *sim.Ctx) {
 						rec.violation("proc-release", "proc-release/peer", "event of batch %d from %s released for peer %s", pc.batch, b.peer, peer)
 					}
 					if err == eventcheck.ErrSpilledEvent {
-						if idx.Lamport(evs[pc.ev].lamport) > lastHL+1+idx.Lamport(bufNum) {
+						if uint64(evs[pc.ev].lamport) > uint64(lastHL)+1+uint64(bufNum) {
 							probes.inc("far_future_event_dropped")
 						} else {
 							probes.inc("event_spilled_by_buffer")
@@ -285,7 +309,7 @@ func RunProcessor(c *sim.Ctx) {
 					ml.mu.Lock()
 					defer ml.mu.Unlock()
 					i, ok := byID[h]
-					if ok && idx.Lamport(evs[i].lamport) > lastHL+1+idx.Lamport(bufNum) {
+					if ok && uint64(evs[i].lamport) > uint64(lastHL)+1+uint64(bufNum) {
 						rec.violation("proc-far-future", "proc-far-future", "event e%d with Lamport %d reached the ordering buffer although the highest known Lamport time was %d and the buffer limit is %d events", i, evs[i].lamport, lastHL, bufNum)
 					}
 					if ok && len(occ[i]) == 1 {
